@@ -409,7 +409,7 @@ func validateFieldValue(f *sdcpb.LeafSchema, v any) error {
 
 func validateLeafTypeValue(lt *sdcpb.SchemaLeafType, v any) error {
 	switch lt.GetType() {
-	case "string":
+	case "string", "bits", "binary", "instance-identifier":
 		// TODO: validate length and range
 		return nil
 	case "int8":
@@ -584,7 +584,8 @@ func validateLeafTypeValue(lt *sdcpb.SchemaLeafType, v any) error {
 		switch v := v.(type) {
 		case float64: // if it's a float64 then it's a valid decimal64
 		case string:
-			if c := strings.Count(v, "."); c == 0 || c > 1 {
+			// the fraction is optional in the lexical representation
+			if d64, err := utils.ParseDecimal64(v); err != nil || d64 == nil {
 				return fmt.Errorf("value %q is not a valid Decimal64", v)
 			}
 		case sdcpb.Decimal64, *sdcpb.Decimal64:
